@@ -334,7 +334,8 @@ class ParserEngine(ParserCore, CanParse):
                     # NOTE: No f'{xyz}' evaluations occurred
                     result = safe_eval(expression, context)
             except Exception as e:
-                raise FailedSemantics(
+                # NOTE: a parse failure, so that the choices, optionals and closures around it undo their states
+                raise self.newexcept(
                     f'Error evaluating constant {literal!r}: {e}',
                 ) from e
 
